@@ -691,6 +691,9 @@ func c04Gossip(p *Prog, c *Check, accept string) {
 		c.Floor(rule, nreg, 1)
 	}
 
+	// D4: no topic is joined without a validator
+	topicsHaveValidators(p, c, "C04-D4")
+
 	// UnmarshalPubsubMessage: success only through p2pmsg.Unmarshal ok and msg.Validate() == nil
 	rule = "C04-D2b"
 	ump, err := p.Func("p2p.UnmarshalPubsubMessage")
